@@ -2,15 +2,20 @@ package conversion
 
 import (
 	"strings"
+	"sync"
 )
 
 type ChainStorage struct {
 	Chains map[string]*Chain
+	// mu serializes access to Chains and to the path caches: conversion requests
+	// are served concurrently and FindConversionChain fills the caches.
+	mu *sync.Mutex
 }
 
 func NewChainStorage() *ChainStorage {
 	return &ChainStorage{
 		Chains: make(map[string]*Chain),
+		mu:     &sync.Mutex{},
 	}
 }
 
@@ -23,6 +28,10 @@ type Chain struct {
 
 // Access a Chain by CRD full name (e.g. crontab.stable.example.com)
 func (cs ChainStorage) Get(crdName string) *Chain {
+	if cs.mu != nil {
+		cs.mu.Lock()
+		defer cs.mu.Unlock()
+	}
 	if _, ok := cs.Chains[crdName]; !ok {
 		cs.Chains[crdName] = &Chain{
 			PathsCache:      make(map[Rule][]Rule),
@@ -46,6 +55,10 @@ func (c *Chain) Put(rule Rule) {
 // Calculations
 // FindConversionChain returns an array of ConverionsRules that should be
 func (cs ChainStorage) FindConversionChain(crdName string, rule Rule) []Rule {
+	if cs.mu != nil {
+		cs.mu.Lock()
+		defer cs.mu.Unlock()
+	}
 	chain, ok := cs.Chains[crdName]
 	if !ok {
 		return nil
